@@ -166,12 +166,25 @@ fn gpiece() -> BoxedStrategy<String> {
         3 => select(PIECES).prop_map(str::to_string),
         1 => select(&["%2e%2E", "%2E.", "..%2e", "%2e%2e%2e", "%2f%2e%2e", "%2e%2f", "a%2F..", "%00", "%5c..", "%2E%2F%2e"][..]).prop_map(str::to_string),
         4 => proptest::collection::vec(unit, 1..=4).prop_map(|v| v.concat()),
+        // ordinary words with a dot in them, and long pieces (beyond 23 / 64 bytes), plain or with an
+        // escape somewhere inside
+        2 => select(&["v1.2", "main.rs", "lib.so.1", "docs", "etc", "passwd", "a.b.c", "x-y_z"][..]).prop_map(str::to_string),
+        1 => (select(&[20usize, 24, 30, 62, 66, 70, 90][..]), select(&["", "%2F", "%2f", "%2e", ".", "%41", "%2E%2E", "é"][..]), 0usize..3).prop_map(|(n, mid, at)| {
+            let fill = "a".repeat(n);
+            match at {
+                0 => format!("{mid}{fill}"),
+                1 => format!("{}{mid}{}", &fill[..n / 2], &fill[n / 2..]),
+                _ => format!("{fill}{mid}"),
+            }
+        }),
     ]
     .boxed()
 }
 
 fn gpieces() -> BoxedStrategy<PieceCase> {
-    (proptest::collection::vec(gpiece(), 0..=6), 0u8..3).prop_map(|(pieces, context)| PieceCase { pieces, context }).boxed()
+    (prop_oneof![6 => proptest::collection::vec(gpiece(), 0..=6), 1 => proptest::collection::vec(gpiece(), 7..=14)], 0u8..3)
+        .prop_map(|(pieces, context)| PieceCase { pieces, context })
+        .boxed()
 }
 
 pub fn inv_all(s: &str, st: &mut Stats) -> Result<(), String> {
